@@ -20,6 +20,7 @@ const gnRel = 1e-9
 
 // H_C16_emc_dwc: quick = qf*emc*1e-3, slow = sf*dwc*1e-3, total = quick + slow; zero flow => zero
 // load; non-negative drivers => non-negative loads.  (mg/L -> kg/m3 = 1e-3.)
+//
 //vsym:prop=C16 tier=quick ints=int floats=real
 func H_C16_emc_dwc() {
 	qf, sf := gnSeries("qf", gnT), gnSeries("sf", gnT)
@@ -41,6 +42,7 @@ func H_C16_emc_dwc() {
 }
 
 // H_C16_fixed_concentration: load = flow*conc*1e-3.
+//
 //vsym:prop=C16 tier=quick ints=int floats=real
 func H_C16_fixed_concentration() {
 	f := gnSeries("flow", gnT)
@@ -54,6 +56,7 @@ func H_C16_fixed_concentration() {
 }
 
 // H_C16_pass_load_if_flow: load passes (scaled) iff flow exceeds the zero threshold.
+//
 //vsym:prop=C16 tier=quick ints=int floats=real
 func H_C16_pass_load_if_flow() {
 	f, l := gnSeries("flow", gnT), gnSeries("load", gnT)
@@ -72,6 +75,7 @@ func H_C16_pass_load_if_flow() {
 }
 
 // H_C16_dissolved_nutrients: per-second loads = flow * conc * 1e-3 (L/day and mg->kg factors cancel), total = quick + slow.
+//
 //vsym:prop=C16 tier=quick ints=int floats=real
 func H_C16_dissolved_nutrients() {
 	qf, sf := gnSeries("qf", gnT), gnSeries("sf", gnT)
@@ -88,28 +92,33 @@ func H_C16_dissolved_nutrients() {
 
 // H_C16_particulate_nutrients: total = quick + slow, quick = hillslope + gully, slow = sf*dwc*1e-3;
 // zero sediment supply => zero quick load.
+//
 //vsym:prop=C16 tier=quick ints=int floats=real
 func H_C16_particulate_nutrients() {
-	T := 1
+	T := 2
 	fs, cs, fg, cg, sf := gnSeries("fineSheet", T), gnSeries("coarseSheet", T), gnSeries("fineGully", T), gnSeries("coarseGully", T), gnSeries("sf", T)
 	area, nss, hdr, ner, nsub, nerg, gdr, dwc, creams := vsym.Float64("area"), vsym.Float64("nutSurf"), vsym.Float64("hdr"), vsym.Float64("ner"), vsym.Float64("nutSub"), vsym.Float64("nerg"), vsym.Float64("gdr"), vsym.Float64("dwc"), vsym.Float64("creams")
 	q, s, tot, hill, gul := gnOut(T), gnOut(T), gnOut(T), gnOut(T), gnOut(T)
 	particulateNutrients(fs, cs, fg, cg, sf, area, nss, hdr, ner, nsub, nerg, gdr, dwc, creams, q, s, tot, hill, gul)
 	vsym.Reach("run")
-	vsym.AssertNear(tot.Get1(0), q.Get1(0)+s.Get1(0), gnAbs, gnRel, "total-is-quick-plus-slow")
-	vsym.AssertNear(q.Get1(0), hill.Get1(0)+gul.Get1(0), gnAbs, gnRel, "quick-is-hillslope-plus-gully")
-	vsym.AssertNear(s.Get1(0), sf.Get1(0)*dwc*0.001, gnAbs, gnRel, "slow-load-linear-with-unit-factor")
-	vsym.AssertNear(hill.Get1(0), (fs.Get1(0)+cs.Get1(0))*nss*ner*(hdr*0.01), gnAbs, gnRel, "hillslope-delivered-is-generated-times-ratio")
-	if fs.Get1(0)+cs.Get1(0) == 0 && fg.Get1(0)+cg.Get1(0) == 0 {
-		vsym.Assert(q.Get1(0) == 0, "zero-supply-zero-quick-load")
+	// every timestep on its own (nothing may carry over from the step before)
+	for t := 0; t < T; t++ {
+		vsym.AssertNear(tot.Get1(t), q.Get1(t)+s.Get1(t), gnAbs, gnRel, "total-is-quick-plus-slow")
+		vsym.AssertNear(q.Get1(t), hill.Get1(t)+gul.Get1(t), gnAbs, gnRel, "quick-is-hillslope-plus-gully")
+		vsym.AssertNear(s.Get1(t), sf.Get1(t)*dwc*0.001, gnAbs, gnRel, "slow-load-linear-with-unit-factor")
+		vsym.AssertNear(hill.Get1(t), (fs.Get1(t)+cs.Get1(t))*nss*ner*(hdr*0.01), gnAbs, gnRel, "hillslope-delivered-is-generated-times-ratio")
+		if fs.Get1(t)+cs.Get1(t) == 0 && fg.Get1(t)+cg.Get1(t) == 0 {
+			vsym.Assert(q.Get1(t) == 0, "zero-supply-zero-quick-load")
+		}
 	}
 }
 
 // H_C16_bank_erosion: fine + coarse = total with fine = total*soilPercentFine/100; zero flow or
 // volume => zero; non-negative drivers => non-negative loads (pow by contract).
+//
 //vsym:prop=C16 tier=quick ints=int floats=real
 func H_C16_bank_erosion() {
-	T := 1
+	T := 2
 	dv, tv := gnSeries("downstreamFlow", T), gnSeries("totalVolume", T)
 	p := make([]float64, 14)
 	names := []string{"ripVeg", "maxRipEff", "soilErod", "coeff", "slope", "bankFull", "mgt", "density", "height", "length", "power", "ltFlow", "pctFine", "dur"}
@@ -120,22 +129,25 @@ func H_C16_bank_erosion() {
 	fine, coarse := gnOut(T), gnOut(T)
 	bankErosion(dv, tv, p[0], p[1], p[2], p[3], p[4], p[5], p[6], p[7], p[8], p[9], p[10], p[11], p[12], p[13], fine, coarse)
 	vsym.Reach("run")
-	total := fine.Get1(0) + coarse.Get1(0)
-	vsym.AssertNear(fine.Get1(0), total*(p[12]*0.01), gnAbs, gnRel, "fine-is-total-times-fine-fraction")
-	if tv.Get1(0) <= 0 || dv.Get1(0) <= 0 {
-		vsym.Assert(fine.Get1(0) == 0 && coarse.Get1(0) == 0, "zero-flow-or-volume-zero-erosion")
-	}
 	allNonNeg := true
 	for i := range p {
 		allNonNeg = vsym.And(allNonNeg, p[i] >= 0)
 	}
-	if allNonNeg && p[0] <= 100 && p[1] <= 100 && p[12] <= 100 {
-		vsym.Assert(fine.Get1(0) >= 0 && coarse.Get1(0) >= 0, "nonnegative-drivers-nonnegative-loads")
+	// every timestep on its own (a wet step followed by a dry one included)
+	for t := 0; t < T; t++ {
+		total := fine.Get1(t) + coarse.Get1(t)
+		vsym.AssertNear(fine.Get1(t), total*(p[12]*0.01), gnAbs, gnRel, "fine-is-total-times-fine-fraction")
+		if tv.Get1(t) <= 0 || dv.Get1(t) <= 0 {
+			vsym.Assert(fine.Get1(t) == 0 && coarse.Get1(t) == 0, "zero-flow-or-volume-zero-erosion")
+		}
+		if allNonNeg && p[0] <= 100 && p[1] <= 100 && p[12] <= 100 {
+			vsym.Assert(fine.Get1(t) >= 0 && coarse.Get1(t) >= 0, "nonnegative-drivers-nonnegative-loads")
+		}
 	}
 }
 
 func gnGully(derm bool) {
-	T := 1
+	T := 2
 	qf, yr, ar, al := gnSeries("qf", T), gnSeries("year", T), gnSeries("annualRunoff", T), gnSeries("annualLoad", T)
 	names := []string{"yearDist", "endYear", "area", "activity", "supply", "pctFine", "mgt", "ltRunoff", "power", "sdrFine", "sdrCoarse", "dt"}
 	p := make([]float64, len(names))
@@ -150,31 +162,36 @@ func gnGully(derm bool) {
 		sednetGullyOrig(qf, yr, ar, al, p[0], p[1], p[2], p[3], p[4], p[5], p[6], p[7], p[8], p[9], p[10], p[11], fl, cl, gf, gc)
 	}
 	vsym.Reach("run")
-	vsym.AssertNear(fl.Get1(0), gf.Get1(0)*(p[9]*0.01), gnAbs, gnRel, "delivered-fine-is-generated-times-sdr")
-	vsym.AssertNear(cl.Get1(0), gc.Get1(0)*(p[10]*0.01), gnAbs, gnRel, "delivered-coarse-is-generated-times-sdr")
-	if qf.Get1(0) == 0 {
-		vsym.Assert(fl.Get1(0) == 0 && cl.Get1(0) == 0, "zero-runoff-zero-load")
-	}
-	// fine : coarse = pf : (1-pf) while the gully is active (activity factor 1)
-	if yr.Get1(0) <= p[1] {
-		pf := p[5] / 100
-		vsym.AssertNear(gf.Get1(0)*(1-pf), gc.Get1(0)*pf, gnAbs, gnRel, "fine-coarse-split-by-fine-fraction")
+	for t := 0; t < T; t++ {
+		vsym.AssertNear(fl.Get1(t), gf.Get1(t)*(p[9]*0.01), gnAbs, gnRel, "delivered-fine-is-generated-times-sdr")
+		vsym.AssertNear(cl.Get1(t), gc.Get1(t)*(p[10]*0.01), gnAbs, gnRel, "delivered-coarse-is-generated-times-sdr")
+		if qf.Get1(t) == 0 {
+			vsym.Assert(fl.Get1(t) == 0 && cl.Get1(t) == 0, "zero-runoff-zero-load")
+		}
+		// fine : coarse = pf : (1-pf) while the gully is active (activity factor 1)
+		if yr.Get1(t) <= p[1] {
+			pf := p[5] / 100
+			vsym.AssertNear(gf.Get1(t)*(1-pf), gc.Get1(t)*pf, gnAbs, gnRel, "fine-coarse-split-by-fine-fraction")
+		}
 	}
 }
 
 // H_C16_gully_orig: DynamicSednetGully: delivered = generated*SDR/100, fine:coarse split, zero runoff => zero.
+//
 //vsym:prop=C16 tier=quick ints=int floats=real
 func H_C16_gully_orig() { gnGully(false) }
 
 // H_C16_gully_derm: DynamicSednetGullyAlt, same identities.
+//
 //vsym:prop=C16 tier=quick ints=int floats=real
 func H_C16_gully_derm() { gnGully(true) }
 
 // H_C16_usle: totals = quick + slow; delivered fine = generated * HSDR/100; no erosive rain or
 // no quickflow => zero quick load; slow = sf*dwc*1e-3.
+//
 //vsym:prop=C16 tier=quick ints=int floats=real timeout=120
 func H_C16_usle() {
-	T := 1
+	T := 2
 	qf, sf, rain, klsc, klscF, cov, doy := gnSeries("qf", T), gnSeries("sf", T), gnSeries("rain", T), gnSeries("klsc", T), gnSeries("klscFine", T), gnSeries("cov", T), gnSeries("doy", T)
 	names := []string{"s", "p", "rainThreshold", "alpha", "beta", "eta", "a1", "a2", "a3", "dwc", "avK", "avLS", "avFines", "area", "maxConc", "hsdrFine", "hsdrCoarse", "dt"}
 	p := make([]float64, len(names))
@@ -188,17 +205,19 @@ func H_C16_usle() {
 	}
 	usleFine(qf, sf, rain, klsc, klscF, cov, doy, p[0], p[1], p[2], p[3], p[4], p[5], p[6], p[7], p[8], p[9], p[10], p[11], p[12], p[13], p[14], p[15], p[16], p[17],
 		o[0], o[1], o[2], o[3], o[4], o[5], o[6], o[7])
-	quickFine, slowFine, quickCoarse, slowCoarse, totFine, totCoarse, genFine, genCoarse := o[0].Get1(0), o[1].Get1(0), o[2].Get1(0), o[3].Get1(0), o[4].Get1(0), o[5].Get1(0), o[6].Get1(0), o[7].Get1(0)
 	vsym.Reach("run")
-	vsym.AssertNear(totFine, quickFine+slowFine, gnAbs, gnRel, "total-fine-is-quick-plus-slow")
-	vsym.AssertNear(totCoarse, quickCoarse+slowCoarse, gnAbs, gnRel, "total-coarse-is-quick-plus-slow")
-	vsym.AssertNear(slowFine, sf.Get1(0)*p[9]*0.001, gnAbs, gnRel, "slow-load-linear-with-unit-factor")
-	vsym.AssertNear(quickFine, genFine*(p[15]*0.01), gnAbs, gnRel, "delivered-fine-is-generated-times-hsdr")
-	vsym.AssertNear(quickCoarse, genCoarse*(p[16]*0.01), gnAbs, gnRel, "delivered-coarse-is-generated-times-hsdr")
-	if rain.Get1(0) <= p[2] || qf.Get1(0) <= 0 {
-		vsym.Assert(quickFine == 0 && quickCoarse == 0 && genFine == 0, "no-erosive-rain-or-no-quickflow-zero-quick-load")
+	for t := 0; t < T; t++ {
+		quickFine, slowFine, quickCoarse, slowCoarse, totFine, totCoarse, genFine, genCoarse := o[0].Get1(t), o[1].Get1(t), o[2].Get1(t), o[3].Get1(t), o[4].Get1(t), o[5].Get1(t), o[6].Get1(t), o[7].Get1(t)
+		vsym.AssertNear(totFine, quickFine+slowFine, gnAbs, gnRel, "total-fine-is-quick-plus-slow")
+		vsym.AssertNear(totCoarse, quickCoarse+slowCoarse, gnAbs, gnRel, "total-coarse-is-quick-plus-slow")
+		vsym.AssertNear(slowFine, sf.Get1(t)*p[9]*0.001, gnAbs, gnRel, "slow-load-linear-with-unit-factor")
+		vsym.AssertNear(quickFine, genFine*(p[15]*0.01), gnAbs, gnRel, "delivered-fine-is-generated-times-hsdr")
+		vsym.AssertNear(quickCoarse, genCoarse*(p[16]*0.01), gnAbs, gnRel, "delivered-coarse-is-generated-times-hsdr")
+		if rain.Get1(t) <= p[2] || qf.Get1(t) <= 0 {
+			vsym.Assert(quickFine == 0 && quickCoarse == 0 && genFine == 0, "no-erosive-rain-or-no-quickflow-zero-quick-load")
+		}
+		// generated material is split by the model's fine fraction KLSC_fine : KLSC, with or without
+		// the maximum-concentration cap (cross-multiplied to avoid a division)
+		vsym.AssertNear(genFine*(klsc.Get1(t)-klscF.Get1(t)), genCoarse*klscF.Get1(t), gnAbs, gnRel, "generated-fine-coarse-split-by-fine-fraction")
 	}
-	// generated material is split by the model's fine fraction KLSC_fine : KLSC, with or without
-	// the maximum-concentration cap (cross-multiplied to avoid a division)
-	vsym.AssertNear(genFine*(klsc.Get1(0)-klscF.Get1(0)), genCoarse*klscF.Get1(0), gnAbs, gnRel, "generated-fine-coarse-split-by-fine-fraction")
 }
